@@ -61,3 +61,36 @@ benign("C06.b-rename-should-reduce", "C06", T, "should_reduce", "do_reduce", cou
 benign("C06.b-key-terminal", "C06", T,
        "sh_prior = state._max_prior_per_symbol[\n                                    t_shift.state.symbol\n                                ]",
        "sh_prior = state._max_prior_per_symbol[terminal]")
+
+# ---------------------------------------------------------------- C18
+fault("C18.bypass-or", "C18", P, "if (action is SHIFT and not to_state.symbol.dynamic) or (",
+      "if (action is SHIFT or not to_state.symbol.dynamic) or (", "R18.bypass")
+fault("C18.bypass-prod", "C18", P, "action is REDUCE and not production.dynamic", "action is REDUCE and production.dynamic", "R18.bypass")
+fault("C18.bypass-negate-answer", "C18", P, "        return accepted\n", "        return not accepted\n", "R18.bypass")
+fault("C18.arg-swap", "C18", P, "context, from_state, to_state, action, production, subresults\n        )",
+      "context, to_state, from_state, action, production, subresults\n        )", "R18.bypass")
+fault("C18.glr-no-init", "C18", G, "        self._init_dynamic_disambiguation(start_head)\n", "", "R18.init")
+fault("C18.init-cond", "C18", P, "        if self.dynamic_filter:\n            if self.debug:\n                prints(\"\\tInitializing",
+      "        if self.dynamic_filter and self.table.sr_conflicts:\n            if self.debug:\n                prints(\"\\tInitializing", "R18.init")
+fault("C18.init-args", "C18", P, "self.dynamic_filter(context, None, None, None, None, None)", "self.dynamic_filter(context, None, None, None, None)", "R18.init")
+fault("C18.merged-shift-skip", "C18", G,
+      "                parent = next(iter(shifted_head.parents.values())).clone_with_root(head)\n                if self.dynamic_filter and not self._call_dynamic_filter(\n                    parent, head.state, to_state, SHIFT\n                ):\n                    continue\n",
+      "                parent = next(iter(shifted_head.parents.values())).clone_with_root(head)\n", "R18.dominance")
+fault("C18.reduce-filter-after", "C18", G,
+      "        if self.dynamic_filter and not self._call_dynamic_filter(\n            parent, head.state, state, REDUCE, production, list(node_nonterm)\n        ):\n            # Action rejected by dynamic filter\n            return\n\n        active_head",
+      "        active_head", "R18.dominance")
+fault("C18.lr-skip", "C18", P, "            if self.dynamic_filter:\n                actions = self._dynamic_disambiguation(head, actions)",
+      "            if self.dynamic_filter and len(actions) > 1:\n                actions = self._dynamic_disambiguation(head, actions)", "R18.dominance")
+fault("C18.lr-break", "C18", P, "                    dyn_actions.append(a)\n            elif a.action is REDUCE:",
+      "                    dyn_actions.append(a)\n                    break\n            elif a.action is REDUCE:", "R18.lr-filter")
+fault("C18.lr-reduce-keep", "C18", P, "                ):\n                    dyn_actions.append(a)\n            else:\n                dyn_actions.append(a)",
+      "                ):\n                    pass\n                dyn_actions.append(a)\n            else:\n                dyn_actions.append(a)", "R18.lr-filter")
+fault("C18.mark-term-only-conflict", "C18", T,
+      "                # Mark state for dynamic disambiguation\n                if term.dynamic:\n                    state.dynamic.add(term)\n\n                if len(actions) > 1:",
+      "                if len(actions) > 1 and term.dynamic:\n                    state.dynamic.add(term)\n\n                if len(actions) > 1:", "R18.marks")
+benign("C18.b-early-return", "C18", P,
+       "        if (action is SHIFT and not to_state.symbol.dynamic) or (\n            action is REDUCE and not production.dynamic\n        ):\n            return True\n",
+       "        if action is SHIFT and not to_state.symbol.dynamic:\n            return True\n        if action is REDUCE and not production.dynamic:\n            return True\n")
+benign("C18.b-filter-local", "C18", G,
+       "        if self.dynamic_filter and not self._call_dynamic_filter(\n            parent, head.state, state, REDUCE, production, list(node_nonterm)\n        ):\n            # Action rejected by dynamic filter\n            return\n",
+       "        if self.dynamic_filter:\n            if not self._call_dynamic_filter(\n                parent, head.state, state, REDUCE, production, list(node_nonterm)\n            ):\n                return\n")
